@@ -130,7 +130,7 @@ Conflate(j) == CASE j.k = "bool" -> IF j.v THEN j ELSE Null
 (***************************************************************************)
 \* floats: also one that needs all 17 significant digits, a huge and a tiny one
 Scalars == {Null, B(TRUE), I(0), I(-7), F("1.5"), F("0.30000000000000004"), S(""), S("x y"), Big("9223372036854775808")}
-           \cup (IF Level = 1 THEN {} ELSE {B(FALSE), I(2147483647), S("q\"\\"), F("-0.25"), F("1e+300"), F("5e-324"), F("123456789.12345679"), Big("-123456789012345678901234567890")})
+           \cup (IF Level = 1 THEN {} ELSE {B(FALSE), I(2147483647), S("q\"\\"), F("-0.25"), F("1e+300"), F("5e-324"), F("1.2345678912345679e+08"), Big("-123456789012345678901234567890")})
 Smalls == {A(<<I(1), S("s")>>), O(<<<<"a", I(1)>>>>), A(<<>>), O(<<>>)}
 Docs == Scalars \cup Smalls
         \cup {A(<<x, y>>) : x \in {I(1), Null, A(<<I(2), I(3)>>), O(<<<<"a", S("v")>>>>), F("0.30000000000000004")}, y \in {S("t"), O(<<<<"b", Null>>, <<"c d", I(4)>>>>), A(<<>>)}}
